@@ -53,9 +53,9 @@ def optIntJ : Option Int → Json
 def optIntF (j : Json) : Except String (Option Int) :=
   if j.isNull then .ok none else (jInt? j).map some
 
-def rowJ (p : RowKey × List Cell) : Json := Json.arr #[p.1.1.toJson, periodJ p.1.2, cellsToJson p.2]
+def rowJ (p : SliceRowKey × List Cell) : Json := Json.arr #[p.1.1.toJson, periodJ p.1.2, cellsToJson p.2]
 
-def rowF (j : Json) : Except String (RowKey × List Cell) := do
+def rowF (j : Json) : Except String (SliceRowKey × List Cell) := do
   let a ← j.getArr?
   if a.size != 3 then throw "row: want [metadata, period, cells]"
   return ((← Metadata.fromJson a[0]!, ← periodF a[1]!), ← cellsFromJson a[2]!)
